@@ -1377,4 +1377,372 @@ theorem pd_eq_cpython_genericOld_counterexample :
     ∧ mro (fun c => localBases (· == 1) (exRaw c)) 3 = some [3, 2, 1] := by
   decide
 
+/-! ## 11. Consumers of the linearisation: `mro()` flags, `is_exception`, constructors,
+"overrides" / "overridden in", inherited-member tables -/
+
+/-- `Class.mro()` (no externals) of an accepted class: the linearisation without the unresolved bases -/
+theorem classMro_accept (bases : Nat → List Nat) (ext : Nat → Bool) (c : Nat) (l : List Nat)
+    (h : mro bases c = some l) (ie is_ : Bool) :
+    classMro bases ext c ie is_ =
+      (if is_ then id else List.drop 1) (if ie then l else l.filter fun o => !ext o) := by
+  cases ie <;> cases is_ <;> simp [classMro, initMro, h]
+
+theorem classMro_no_external (bases : Nat → List Nat) (ext : Nat → Bool) (c : Nat) (is_ : Bool) :
+    ∀ x ∈ classMro bases ext c false is_, ext x = false := by
+  intro x hx
+  simp only [classMro, Bool.false_eq_true, if_false] at hx
+  have : x ∈ (initMro bases ext c).1.filter fun o => !ext o := by
+    cases is_
+    · exact List.mem_of_mem_drop hx
+    · simpa using hx
+  simpa using (List.mem_filter.1 this).2
+
+/-- **isException_iff**: for a class Python accepts, `is_exception` holds exactly when a *proper*
+ancestor is an unresolved base named in `_STD_LIB_EXCEPTIONS` — the walk covers the whole
+ancestry (`mro_mem_iff_ancestor`) and never the class itself. -/
+theorem isException_iff (bases : Nat → List Nat) (hA : Acyclic bases) (ext std : Nat → Bool)
+    (c : Nat) (l : List Nat) (h : mro bases c = some l) :
+    isException bases ext std c = true ↔
+      ∃ x, x ≠ c ∧ Anc bases x c ∧ ext x = true ∧ std x = true := by
+  obtain ⟨t, rfl, ht⟩ := mroFuel_head_tail bases hA _ c l h
+  have hmem := mro_mem_iff_ancestor bases c _ h
+  simp only [isException, classMro_accept bases ext c _ h, if_true, Bool.false_eq_true, if_false,
+    List.drop_succ_cons, List.drop_zero, List.any_eq_true, Bool.and_eq_true]
+  constructor
+  · rintro ⟨x, hx, he, hs⟩
+    refine ⟨x, ?_, (hmem x).1 (List.mem_cons_of_mem _ hx), he, hs⟩
+    intro e; subst e; exact Nat.lt_irrefl _ (ht _ hx)
+  · rintro ⟨x, hne, ha, he, hs⟩
+    have := (hmem x).2 ha
+    rcases List.mem_cons.1 this with rfl | hx
+    · exact absurd rfl hne
+    · exact ⟨x, hx, he, hs⟩
+
+/-- **findDunderConstructor_eq_lookup**: the constructor pydoctor documents for an accepted class is
+the user-defined `__new__` / `__init__` Python's lookup along `__mro__` reaches. -/
+theorem findDunderConstructor_eq_lookup (bases : Nat → List Nat) (hA : Acyclic1 bases)
+    (ext : Nat → Bool) (owns isFunc : Nat → Nat → Bool) (c newN initN : Nat) (hc : 0 < c)
+    (l : List Nat) (hacc : mro bases c = some l)
+    (hext : ∀ x n, ext x = true → owns x n = false) (hobj : ∀ n, owns 0 n = false) :
+    findDunderConstructor bases ext owns isFunc c newN initN
+      = PyMro.constructorLookup (PyMro.withObject bases) owns isFunc c newN initN := by
+  simp only [findDunderConstructor, PyMro.constructorLookup,
+    find_eq_lookup bases hA ext owns c newN hc l hacc (fun x => hext x newN) (hobj newN),
+    find_eq_lookup bases hA ext owns c initN hc l hacc (fun x => hext x initN) (hobj initN)]
+
+/-- **overrides_eq_super**: the member shown as "overrides …" is the one `super()` reaches. -/
+theorem overrides_eq_super (bases : Nat → List Nat) (hA : Acyclic1 bases) (ext : Nat → Bool)
+    (owns : Nat → Nat → Bool) (c name : Nat) (hc : 0 < c) (l : List Nat)
+    (hacc : mro bases c = some l) (hcext : ext c = false)
+    (hext : ∀ x, ext x = true → owns x name = false) (hobj : owns 0 name = false) :
+    overrides bases ext owns c name = PyMro.superLookup (PyMro.withObject bases) owns c name := by
+  obtain ⟨t, rfl, _⟩ := mroFuel_head_tail bases hA.acyclic _ c l hacc
+  simp only [overrides, PyMro.superLookup, classMro_accept bases ext c _ hacc,
+    pd_eq_cpython bases hA c hc, hacc, Option.map_some, Bool.false_eq_true, if_false,
+    List.filter_cons, hcext, Bool.not_false, if_true, List.drop_succ_cons, List.drop_zero,
+    List.cons_append]
+  rw [List.find?_filter, List.find?_append]
+  simp only [List.find?_cons, hobj, List.find?_nil, Option.or_none]
+  apply find?_congr_mem
+  intro x _
+  cases he : ext x with
+  | false => simp
+  | true => simp [hext x he]
+
+theorem mem_subclassesOf (bases : Nat → List Nat) (order : List Nat) (c s : Nat)
+    (h : s ∈ subclassesOf bases order c) : c ∈ bases s := by
+  simp only [subclassesOf, List.mem_flatMap, List.mem_map, List.mem_filter] at h
+  obtain ⟨d, _, w, ⟨hm, he⟩, rfl⟩ := h
+  have : w = c := by simpa using he
+  rw [← this]; exact hm
+
+theorem anc_trans {bases : Nat → List Nat} {x y z : Nat} (h1 : Anc bases x y) (h2 : Anc bases y z) :
+    Anc bases x z := by
+  induction h2 with
+  | refl => exact h1
+  | step hb _ ih => exact Anc.step hb ih
+
+theorem anc_le {bases : Nat → List Nat} (hA : Acyclic bases) {x y : Nat} (h : Anc bases x y) :
+    x ≤ y := by
+  induction h with
+  | refl => exact Nat.le_refl _
+  | step hb _ ih => exact Nat.le_trans ih (Nat.le_of_lt (hA _ _ hb))
+
+theorem overriding_inner (bases : Nat → List Nat) (order : List Nat) (owns : Nat → Nat → Bool)
+    (visible : Nat → Bool) (name : Nat) : ∀ (f s d : Nat),
+      d ∈ overridingFuel bases order owns visible name f s false → visible s = true →
+        owns d name = true ∧ Anc bases s d ∧ visible d = true := by
+  intro f
+  induction f with
+  | zero => intro s d h; simp [overridingFuel] at h
+  | succ f ih =>
+    intro s d h hv
+    simp only [overridingFuel, Bool.not_false, Bool.true_and] at h
+    split at h
+    · rename_i ho
+      simp at h; subst h
+      exact ⟨ho, Anc.refl _, hv⟩
+    · simp only [List.mem_flatMap, List.mem_filter] at h
+      obtain ⟨s2, ⟨hs2, hv2⟩, hd2⟩ := h
+      obtain ⟨ho, ha, hvd⟩ := ih s2 d hd2 hv2
+      exact ⟨ho, anc_trans (Anc.step (mem_subclassesOf bases order s s2 hs2) (Anc.refl _)) ha, hvd⟩
+
+/-- **overriding_sound**: every class listed as "overridden in" for member `name` of `c` is a
+visible proper descendant of `c` that defines `name` itself. -/
+theorem overriding_sound (bases : Nat → List Nat) (hA : Acyclic bases) (order : List Nat)
+    (owns : Nat → Nat → Bool) (visible : Nat → Bool) (c name d : Nat)
+    (h : d ∈ overridingSubclasses bases order owns visible c name) :
+    owns d name = true ∧ Anc bases c d ∧ c < d ∧ visible d = true := by
+  simp only [overridingSubclasses, overridingFuel, Bool.not_true, Bool.false_and,
+    Bool.false_eq_true, if_false, List.mem_flatMap, List.mem_filter] at h
+  obtain ⟨s, ⟨hs, hv⟩, hd⟩ := h
+  obtain ⟨ho, ha, hvd⟩ := overriding_inner bases order owns visible name _ s d hd hv
+  have hcs := mem_subclassesOf bases order c s hs
+  exact ⟨ho, anc_trans (Anc.step hcs (Anc.refl _)) ha,
+    Nat.lt_of_lt_of_le (hA s c hcs) (anc_le hA ha), hvd⟩
+
+/-- The full statement "no class is listed twice" is false of the code: in a diamond
+1; 2(1); 3(1); 4(2,3) where only 1 and 4 define the member, `overriding_subclasses(1, m)`
+yields 4 twice (once through 2, once through 3) and the page says "overridden in 4, 4". -/
+theorem overriding_duplicate_counterexample :
+    overridingSubclasses exBases [1, 2, 3, 4] (fun c _ => c == 1 || c == 4) (fun _ => true) 1 0 = [4, 4] := by
+  decide
+
+/-! ### `overriding_subclasses` lists nobody twice — only under single inheritance
+
+Full statement (false of the code, see `overriding_duplicate_counterexample`):
+`(overridingSubclasses bases order owns visible c name).Nodup`. -/
+
+def SingleInheritance (bases : Nat → List Nat) : Prop := ∀ d, (bases d).length ≤ 1
+
+theorem anc_chain {bases : Nat → List Nat} (hS : SingleInheritance bases) {x d : Nat}
+    (hx : Anc bases x d) : ∀ {y : Nat}, Anc bases y d → Anc bases x y ∨ Anc bases y x := by
+  induction hx with
+  | refl => intro y hy; exact Or.inr hy
+  | @step b d hb hxb ih =>
+    intro y hy
+    cases hy with
+    | refl => exact Or.inl (Anc.step hb hxb)
+    | step hb' hyb' =>
+      rename_i b'
+      have : b = b' := by
+        have hl := hS d
+        match hbd : bases d, hl with
+        | [], _ => rw [hbd] at hb; simp at hb
+        | [z], _ => rw [hbd] at hb hb'; simp at hb hb'; rw [hb, hb']
+        | _ :: _ :: _, hl => simp at hl
+      subst this
+      exact ih hyb'
+
+theorem nodup_flatMap_iff {f : Nat → List Nat} {l : List Nat} :
+    (l.flatMap f).Nodup ↔
+      (∀ a ∈ l, (f a).Nodup) ∧ l.Pairwise (fun a b => ∀ x ∈ f a, ∀ y ∈ f b, x ≠ y) := by
+  simp only [List.nodup_iff_pairwise_ne, List.pairwise_flatMap]
+
+theorem subclassesOf_nodup (bases : Nat → List Nat) (hS : SingleInheritance bases) (order : List Nat)
+    (ho : order.Nodup) (c : Nat) : (subclassesOf bases order c).Nodup := by
+  simp only [subclassesOf]
+  rw [nodup_flatMap_iff]
+  constructor
+  · intro d _
+    have hl := hS d
+    match hbd : bases d, hl with
+    | [], _ => simp
+    | [z], _ => by_cases h : z = c <;> simp [h]
+    | _ :: _ :: _, hl => simp at hl
+  · refine List.Pairwise.imp_of_mem ?_ (List.nodup_iff_pairwise_ne.1 ho)
+    intro a b _ _ hab x hxa y hyb
+    simp only [List.mem_map] at hxa hyb
+    obtain ⟨_, _, rfl⟩ := hxa
+    obtain ⟨_, _, rfl⟩ := hyb
+    exact hab
+
+theorem overriding_anc (bases : Nat → List Nat) (order : List Nat) (owns : Nat → Nat → Bool)
+    (visible : Nat → Bool) (name : Nat) : ∀ (f s d : Nat),
+      d ∈ overridingFuel bases order owns visible name f s false → Anc bases s d := by
+  intro f
+  induction f with
+  | zero => intro s d h; simp [overridingFuel] at h
+  | succ f ih =>
+    intro s d h
+    simp only [overridingFuel, Bool.not_false, Bool.true_and] at h
+    split at h
+    · simp at h; subst h; exact Anc.refl _
+    · simp only [List.mem_flatMap, List.mem_filter] at h
+      obtain ⟨s2, ⟨hs2, _⟩, hd2⟩ := h
+      exact anc_trans (Anc.step (mem_subclassesOf bases order s s2 hs2) (Anc.refl _)) (ih s2 d hd2)
+
+theorem siblings_disjoint (bases : Nat → List Nat) (hA : Acyclic bases) (hS : SingleInheritance bases)
+    (c s1 s2 d : Nat) (h1 : c ∈ bases s1) (h2 : c ∈ bases s2) (hne : s1 ≠ s2)
+    (a1 : Anc bases s1 d) (a2 : Anc bases s2 d) : False := by
+  have key : ∀ {s t : Nat}, c ∈ bases s → c ∈ bases t → s ≠ t → Anc bases s t → False := by
+    intro s t hs ht hst hanc
+    cases hanc with
+    | refl => exact hst rfl
+    | step hb hsb =>
+      rename_i b
+      have : b = c := by
+        have hl := hS t
+        match hbd : bases t, hl with
+        | [], _ => rw [hbd] at hb; simp at hb
+        | [z], _ => rw [hbd] at hb ht; simp at hb ht; rw [hb, ht]
+        | _ :: _ :: _, hl => simp at hl
+      subst this
+      have := anc_le hA hsb
+      have := hA s b hs
+      omega
+  rcases anc_chain hS a1 a2 with h | h
+  · exact key h1 h2 hne h
+  · exact key h2 h1 (Ne.symm hne) h
+
+theorem overriding_inner_nodup (bases : Nat → List Nat) (hA : Acyclic bases)
+    (hS : SingleInheritance bases) (order : List Nat) (ho : order.Nodup) (owns : Nat → Nat → Bool)
+    (visible : Nat → Bool) (name : Nat) : ∀ (f c : Nat) (first : Bool),
+      (overridingFuel bases order owns visible name f c first).Nodup := by
+  intro f
+  induction f with
+  | zero => intro c first; simp [overridingFuel]
+  | succ f ih =>
+    intro c first
+    simp only [overridingFuel]
+    split
+    · simp
+    · rw [nodup_flatMap_iff]
+      refine ⟨fun s _ => ih s false, ?_⟩
+      have hnd : ((subclassesOf bases order c).filter visible).Nodup :=
+        (subclassesOf_nodup bases hS order ho c).filter _
+      refine List.Pairwise.imp_of_mem ?_ (List.nodup_iff_pairwise_ne.1 hnd)
+      intro s1 s2 hs1 hs2 hne d hd1 d' hd2 e
+      subst e
+      exact siblings_disjoint bases hA hS c s1 s2 d
+        (mem_subclassesOf bases order c s1 (List.mem_filter.1 hs1).1)
+        (mem_subclassesOf bases order c s2 (List.mem_filter.1 hs2).1) hne
+        (overriding_anc bases order owns visible name f s1 d hd1)
+        (overriding_anc bases order owns visible name f s2 d hd2)
+
+/-- **overriding_nodup_partial**: under single inheritance (every class has at most one base) and
+with every class visited once by `defaultPostProcess`, no class is listed twice as overriding.
+Excluded: multiple inheritance, where the statement is false (`overriding_duplicate_counterexample`). -/
+theorem overriding_nodup_partial (bases : Nat → List Nat) (hA : Acyclic bases)
+    (hS : SingleInheritance bases) (order : List Nat) (ho : order.Nodup) (owns : Nat → Nat → Bool)
+    (visible : Nat → Bool) (c name : Nat) :
+    (overridingSubclasses bases order owns visible c name).Nodup :=
+  overriding_inner_nodup bases hA hS order ho owns visible name _ c true
+
+/-! ### the "inherited from" tables of a class page -/
+
+theorem mem_unmaskedAttrs (contents : Nat → List Nat) (visible : Nat → Nat → Bool) (b : Nat)
+    (rest : List Nat) (b' n : Nat) :
+    (b', n) ∈ unmaskedAttrs contents visible b rest ↔
+      b' = b ∧ n ∈ contents b ∧ visible b n = true ∧ ∀ r ∈ rest, n ∉ contents r := by
+  simp only [unmaskedAttrs, List.mem_map, List.mem_filter, Bool.and_eq_true, Bool.not_eq_true',
+    List.any_eq_false, List.contains_iff_mem, Prod.mk.injEq]
+  constructor
+  · rintro ⟨a, ⟨ha, hv, hr⟩, rfl, rfl⟩
+    exact ⟨rfl, ha, hv, fun r hr' => by simpa using hr r hr'⟩
+  · rintro ⟨rfl, ha, hv, hr⟩
+    exact ⟨n, ⟨ha, hv, fun r hr' => by simpa using hr r hr'⟩, rfl, rfl⟩
+
+theorem mem_chains_unmasked (contents : Nat → List Nat) (visible : Nat → Nat → Bool) (b n : Nat) :
+    ∀ (xs acc : List Nat),
+      (∃ p ∈ chains acc xs, p.2 ≠ [] ∧ (b, n) ∈ unmaskedAttrs contents visible p.1 p.2) ↔
+      ∃ as bs, xs = as ++ b :: bs ∧ n ∈ contents b ∧ visible b n = true ∧
+        (∀ r ∈ acc, n ∉ contents r) ∧ (∀ r ∈ as, n ∉ contents r) ∧ (acc ≠ [] ∨ as ≠ []) := by
+  intro xs
+  induction xs with
+  | nil => intro acc; simp [chains]
+  | cons x xs ih =>
+    intro acc
+    constructor
+    · rintro ⟨p, hp, hne, hmem⟩
+      simp only [chains, List.mem_cons] at hp
+      rcases hp with rfl | hp
+      · obtain ⟨rfl, hc, hv, hr⟩ := (mem_unmaskedAttrs _ _ _ _ _ _).1 hmem
+        exact ⟨[], xs, rfl, hc, hv, hr, by simp, Or.inl hne⟩
+      · obtain ⟨as, bs, rfl, hc, hv, hacc, has, _⟩ := (ih (x :: acc)).1 ⟨p, hp, hne, hmem⟩
+        refine ⟨x :: as, bs, rfl, hc, hv, fun r hr => hacc r (List.mem_cons_of_mem _ hr), ?_, Or.inr (by simp)⟩
+        intro r hr
+        rcases List.mem_cons.1 hr with rfl | hr
+        · exact hacc _ (List.mem_cons_self ..)
+        · exact has r hr
+    · rintro ⟨as, bs, hxs, hc, hv, hacc, has, hne⟩
+      cases as with
+      | nil =>
+        simp only [List.nil_append, List.cons.injEq] at hxs
+        obtain ⟨rfl, rfl⟩ := hxs
+        have hacc' : acc ≠ [] := by rcases hne with h | h; exact h; exact absurd rfl h
+        exact ⟨(x, acc), by simp [chains], hacc', (mem_unmaskedAttrs _ _ _ _ _ _).2 ⟨rfl, hc, hv, hacc⟩⟩
+      | cons a as =>
+        simp only [List.cons_append, List.cons.injEq] at hxs
+        obtain ⟨rfl, rfl⟩ := hxs
+        have := (ih (x :: acc)).2 ⟨as, bs, rfl, hc, hv, ?_, fun r hr => has r (List.mem_cons_of_mem _ hr), Or.inl (by simp)⟩
+        · obtain ⟨p, hp, h1, h2⟩ := this
+          exact ⟨p, by simp [chains, hp], h1, h2⟩
+        · intro r hr
+          rcases List.mem_cons.1 hr with rfl | hr
+          · exact has _ (List.mem_cons_self ..)
+          · exact hacc r hr
+
+theorem mem_inheritedMembers (contents : Nat → List Nat) (visible : Nat → Nat → Bool) (m : List Nat)
+    (b n : Nat) :
+    (b, n) ∈ inheritedMembers contents visible m ↔
+      ∃ p ∈ chains [] m, p.2 ≠ [] ∧ (b, n) ∈ unmaskedAttrs contents visible p.1 p.2 := by
+  simp only [inheritedMembers, classMembers, nestedBases, List.mem_flatMap, List.mem_filter,
+    List.mem_map]
+  constructor
+  · rintro ⟨q, ⟨⟨⟨p, hp, rfl⟩, _⟩, hlen⟩, hmem⟩
+    refine ⟨p, hp, ?_, hmem⟩
+    intro h; simp [h] at hlen
+  · rintro ⟨p, hp, hne, hmem⟩
+    refine ⟨(p, unmaskedAttrs contents visible p.1 p.2), ⟨⟨⟨p, hp, rfl⟩, ?_⟩, ?_⟩, hmem⟩
+    · cases h : unmaskedAttrs contents visible p.1 p.2 with
+      | nil => rw [h] at hmem; simp at hmem
+      | cons => simp
+    · cases h : p.2 with
+      | nil => exact absurd h hne
+      | cons => simp
+
+/-- **inherited_members_iff**: over a duplicate-free linearisation `m`, member `n` is listed as
+inherited from `b` exactly when `b` is the first class of `m` that has `n` among its contents,
+`b` is not the class itself (the head of `m`) and the member is visible: when several bases define
+the name, the first one in MRO order is shown, as attribute lookup would find it. -/
+theorem inherited_members_iff (contents : Nat → List Nat) (visible : Nat → Nat → Bool)
+    (m : List Nat) (hn : m.Nodup) (b n : Nat) :
+    (b, n) ∈ inheritedMembers contents visible m ↔
+      m.find? (fun x => (contents x).contains n) = some b ∧ visible b n = true ∧ m.head? ≠ some b := by
+  rw [mem_inheritedMembers, mem_chains_unmasked, List.find?_eq_some_iff_append]
+  constructor
+  · rintro ⟨as, bs, rfl, hc, hv, _, has, hne⟩
+    refine ⟨⟨by simpa using hc, as, bs, rfl, fun a ha => by simpa using has a ha⟩, hv, ?_⟩
+    cases as with
+    | nil => simp at hne
+    | cons a as =>
+      simp only [List.cons_append, List.head?_cons, ne_eq, Option.some.injEq]
+      intro e; subst e
+      have := List.nodup_cons.1 hn
+      exact this.1 (by simp)
+  · rintro ⟨⟨hc, as, bs, rfl, has⟩, hv, hh⟩
+    refine ⟨as, bs, rfl, by simpa using hc, hv, by simp, fun a ha => by simpa using has a ha, Or.inr ?_⟩
+    intro e; subst e; simp at hh
+
+/-- **inherited_attribution**: for a class Python accepts, the class page lists `n` as inherited
+from `b` iff `Class.find(n)` (= attribute lookup, `find_eq_lookup`) yields `b`'s member, `b` is not
+the class itself and the member is visible. -/
+theorem inherited_attribution (bases : Nat → List Nat) (hA : Acyclic bases) (ext : Nat → Bool)
+    (contents : Nat → List Nat) (visible : Nat → Nat → Bool) (c : Nat) (l : List Nat)
+    (hacc : mro bases c = some l) (hcext : ext c = false) (b n : Nat) :
+    (b, n) ∈ inheritedMembers contents visible (classMro bases ext c) ↔
+      find bases ext (fun x k => (contents x).contains k) c n = some b ∧ visible b n = true ∧ b ≠ c := by
+  have hnd : (classMro bases ext c).Nodup := by
+    rw [classMro_accept bases ext c l hacc]
+    exact (mro_nodup bases hA c l hacc).filter _
+  rw [inherited_members_iff contents visible _ hnd, find]
+  obtain ⟨t, rfl, _⟩ := mroFuel_head_tail bases hA _ c l hacc
+  have hh : (classMro bases ext c).head? = some c := by
+    simp [classMro_accept bases ext c _ hacc, List.filter_cons, hcext]
+  rw [hh]
+  constructor
+  · rintro ⟨h1, h2, h3⟩; exact ⟨h1, h2, fun e => h3 (by rw [e])⟩
+  · rintro ⟨h1, h2, h3⟩; exact ⟨h1, h2, fun e => h3 (by simpa using e.symm)⟩
+
 end Mro
